@@ -1,6 +1,8 @@
 #!/usr/bin/env python3
 """Apply one seeded defect to /repo, run the given checks (default: the property it targets), undo it.
-usage: tools/seedrun.py seeded/<id> [Cxx ...] [--tier quick|thorough] [--seed N]
+usage: tools/seedrun.py seeded/<id> [Cxx ...] [--tier quick|thorough] [--seed N] [--worktree]
+--worktree: instead of patching /repo itself, make a scratch git worktree of /repo's HEAD under /tmp/seedwt/, apply the patch there,
+point the checks at it (POLAR_REPO) and remove it afterwards - /repo stays clean, so unchanged-tree sweeps can run meanwhile.
 Prints one line per check: SEED <id> CHECK <Cxx> rc=<rc> violations=<n> wall=<s>"""
 import json, os, subprocess, sys, time
 ROOT = os.path.dirname(os.path.dirname(os.path.abspath(__file__)))
@@ -11,20 +13,36 @@ def main():
         i = args.index("--tier"); tier = args[i + 1]; del args[i:i + 2]
     if "--seed" in args:
         i = args.index("--seed"); seed = args[i + 1]; del args[i:i + 2]
+    wt_mode = "--worktree" in args
+    if wt_mode:
+        args.remove("--worktree")
     sdir = os.path.abspath(args[0])
     meta = json.load(open(os.path.join(sdir, "meta.json")))
     checks = args[1:] or [meta["property"]]
-    st = subprocess.run(["git", "-C", "/repo", "status", "--porcelain", "--untracked-files=no"], capture_output=True, text=True).stdout.strip()
+    target = "/repo"
+    if wt_mode:
+        target = os.path.join("/tmp/seedwt", os.path.basename(sdir) + f"_{os.getpid()}")
+        os.makedirs("/tmp/seedwt", exist_ok=True)
+        r = subprocess.run(["git", "-C", "/repo", "worktree", "add", "-q", "--detach", target, "HEAD"], capture_output=True, text=True)
+        if r.returncode != 0:
+            print("cannot create worktree:", r.stderr[:300]); return 2
+    st = subprocess.run(["git", "-C", target, "status", "--porcelain", "--untracked-files=no"], capture_output=True, text=True).stdout.strip()
     if st:
-        print("refusing: /repo has uncommitted changes:\n" + st); return 2
-    r = subprocess.run(["git", "-C", "/repo", "apply", os.path.join(sdir, "patch.diff")], capture_output=True, text=True)
+        print(f"refusing: {target} has uncommitted changes:\n" + st); return 2
+    r = subprocess.run(["git", "-C", target, "apply", os.path.join(sdir, "patch.diff")], capture_output=True, text=True)
     if r.returncode != 0:
-        print("patch does not apply:", r.stderr[:300]); return 2
+        print("patch does not apply:", r.stderr[:300])
+        if wt_mode:
+            subprocess.run(["git", "-C", "/repo", "worktree", "remove", "--force", target], capture_output=True)
+        return 2
     out = []
     try:
         for c in checks:
             t0 = time.time()
             env = dict(os.environ, VERIF_SEED=seed)
+            if wt_mode:
+                env["POLAR_REPO"] = target
+                env["VERIF_EVIDENCE_DIR"] = os.path.join(target, ".verif_evidence")
             p = subprocess.run([os.path.join(ROOT, "check"), c, tier], capture_output=True, text=True, env=env, cwd=ROOT)
             nv = p.stdout.count("VIOLATION property=")
             kinds = sorted({l.strip().split(" ::")[0] for l in p.stdout.splitlines() if l.startswith("  kind=")})
@@ -33,9 +51,12 @@ def main():
             out.append({"check": c, "tier": tier, "seed": seed, "rc": p.returncode, "violations": nv, "kinds": kinds[:8],
                         "summary": [l for l in p.stdout.splitlines() if l.startswith(c + " ")][-1:]})
     finally:
-        subprocess.run(["git", "-C", "/repo", "checkout", "--", "."], check=True)
-        # evidence files written while a seeded defect was applied are not evidence about the unchanged tree
-        subprocess.run(["git", "-C", ROOT, "checkout", "--", "evidence"], capture_output=True)
+        if wt_mode:
+            subprocess.run(["git", "-C", "/repo", "worktree", "remove", "--force", target], capture_output=True)
+        else:
+            subprocess.run(["git", "-C", "/repo", "checkout", "--", "."], check=True)
+            # evidence files written while a seeded defect was applied are not evidence about the unchanged tree
+            subprocess.run(["git", "-C", ROOT, "checkout", "--", "evidence"], capture_output=True)
     json.dump(out, open(os.path.join(sdir, "last_run.json"), "w"), indent=1)
     rp = os.path.join(sdir, "runs.json")
     runs = json.load(open(rp)) if os.path.exists(rp) else []
